@@ -1041,7 +1041,7 @@ class KmipEngine(object):
                         "specified value: {}".format(attribute_value)
                     )
             elif attribute_index is not None:
-                if attribute_index < len(attribute_list):
+                if 0 <= attribute_index < len(attribute_list):
                     attribute_list.pop(attribute_index)
                 else:
                     raise exceptions.ItemNotFound(
@@ -1665,7 +1665,7 @@ class KmipEngine(object):
                 if not attribute_index:
                     deleted_attribute = existing_attributes[0]
                 else:
-                    if attribute_index < len(existing_attributes):
+                    if 0 <= attribute_index < len(existing_attributes):
                         deleted_attribute = existing_attributes[
                             attribute_index
                         ]
